@@ -235,6 +235,9 @@ func LenRange(sym int) (int, int) {
 	if i == 28 {
 		return 258, 258
 	}
+	if i == 27 {
+		return 227, 257 // 284 + extra 31 would be the alternative encoding of 258
+	}
 	return lenBase[i], lenBase[i] + 1<<uint(lenExtra[i]) - 1
 }
 
